@@ -6,7 +6,8 @@
     Verdicts: [Holds] (the exact statement of Term/Spec.v is TRUE — proved in
     Term/LemmasCheck.v), [Borderline] (true only after allowing the stated rounding slack: counted,
     not a violation), [Fails] (violation candidate), [Unchecked] (cone kind outside the exact
-    fragment, e.g. a power cone whose exponent is not a short dyadic).
+    fragment: a generalised power cone whose exponents are not short dyadics; the 3-d power cone
+    with a general dyadic exponent is checked through certified logarithm bounds).
     Norms are compared through the certified bounds [dsqrt_lo]/[dsqrt_up].  No proofs here. *)
 From Coq Require Import List ZArith NArith QArith Bool Arith Floats.
 Import ListNotations.
@@ -93,6 +94,103 @@ Definition pow_dual_ok (p q : nat) (v : list dy) : bool :=
                  dleb (dpow (dabs w) q *d (dpow (dnat p) p *d dpow (dnat (q - p)) (q - p)))
                       (dpow u p *d dpow v (q - p) *d dpow (dnat q) q)
   | _ => false end.
+(** *** power cones whose exponent is a general dyadic alpha in (0,1) (e.g. the binary64 value
+    of 0.3): membership through logarithms, every certified step built ONLY from the upper bound
+    [yexp_up] of the exponential.
+      [ln_lo x] = Some L  ==>  L <= ln x        (guard:  exp_up1 L <= x)
+      [ln_up a] = Some L  ==>  ln a <= L        (guard:  a * exp_up1 (-L) <= 1)
+    The candidates come from an UNCERTIFIED fixed-point logarithm [ln_approx] (shift-and-square
+    binary logarithm, 96 fractional bits, times a 100-bit ln 2) moved by a small margin; only
+    the final guard enters the soundness proof (Term/LemmasPowReal.v).  A 55-step bisection on
+    [exp_up1] costs 55 evaluations of [yexp_up] per logarithm (seconds under vm_compute); the
+    candidate-then-guard form costs one. *)
+Definition exp_up1 (t : dy) : option dy := yexp_up t d1.
+Definition LN2 : dy := D 878668439483319573618263538048 (-100).     (* floor (ln 2 * 2^100) *)
+Definition LNP : Z := 96.
+(** [Y] in [2^96, 2^97) is y * 2^96 with y in [1,2); returns floor-ish (log2 y * 2^n) *)
+Fixpoint log2_frac (n : nat) (top Y acc : Z) : Z :=
+  match n with
+  | O => acc
+  | S n' =>
+      let Y2 := Z.shiftr (Y * Y) LNP in
+      if top <=? Y2 then log2_frac n' top (Z.shiftr Y2 1) (2 * acc + 1)
+      else log2_frac n' top Y2 (2 * acc)
+  end.
+(** approximation of ln x for dm x > 0, on the grid 2^-72 (rounded down) *)
+Definition ln_approx (x : dy) : dy :=
+  let nb := Z.log2 (dm x) in
+  let k := nb + de x in
+  let Y := Z.shiftl (dm x) (LNP - nb) in
+  let fr := log2_frac 96 (2 ^ (LNP + 1)) Y 0 in
+  D (Z.shiftr ((k * 2 ^ LNP + fr) * dm LN2) (96 + 100 - 72)) (-72).
+(** margin on the grid 2^-72:  (1 + L^2) * 2^-69  covers the excess  t^2 / 2^EXPK  of [yexp_up]
+    and the error of [ln_approx] *)
+Definition ln_margin (L : dy) : dy := D (Z.shiftr (dm L * dm L) 141 + 8) (-72).
+Fixpoint first_ok (g : dy -> bool) (cands : list dy) : option dy :=
+  match cands with [] => None | c :: r => if g c then Some c else first_ok g r end.
+Definition ln_lo_guard (x L : dy) : bool :=
+  match exp_up1 L with Some U => dleb U x | None => false end.
+Definition ln_up_guard (a L : dy) : bool :=
+  match exp_up1 (dneg L) with Some U => dleb (a *d U) d1 | None => false end.
+Definition ln_lo (x : dy) : option dy :=
+  if dltb d0 x then
+    let L0 := ln_approx x in let m := ln_margin L0 in
+    first_ok (ln_lo_guard x) [L0 -d m; L0 -d dshift m 12; L0 -d dshift m 30]
+  else None.
+Definition ln_up (a : dy) : option dy :=
+  if dltb d0 a then
+    let L0 := ln_approx a +d D 1 (-72) in let m := ln_margin L0 in
+    first_ok (ln_up_guard a) [L0 +d m; L0 +d dshift m 12; L0 +d dshift m 30]
+  else None.
+(** |z| <= x^a y^(1-a)  from  |z| * exp (- (a L1 + (1-a) L2)) <= 1 , L1 <= ln x, L2 <= ln y *)
+Definition pow_real_ok (a : dy) (v : list dy) : bool :=
+  match v with
+  | [x; y; z] =>
+      if dltb d0 a && dltb a d1 && dleb d0 x && dleb d0 y then
+        if deqb z d0 then true else
+        match ln_lo x with
+        | Some L1 =>
+            match ln_lo y with
+            | Some L2 =>
+                match exp_up1 (dneg (a *d L1 +d (d1 -d a) *d L2)) with
+                | Some U => dleb (dabs z *d U) d1
+                | None => false end
+            | None => false end
+        | None => false end
+      else false
+  | _ => false end.
+(** [pow_T2 a] >= a ln a + (1-a) ln (1-a)  (depends on the exponent only) *)
+Definition pow_T2 (a : dy) : option dy :=
+  match ln_up a with
+  | Some A1 => match ln_up (d1 -d a) with
+               | Some A2 => Some (a *d A1 +d (d1 -d a) *d A2)
+               | None => None end
+  | None => None end.
+(** |w| <= (u/a)^a (v/(1-a))^(1-a)  from  |w| * exp (T2 - T1) <= 1 ,
+    T1 = a L1 + (1-a) L2 <= a ln u + (1-a) ln v *)
+Definition pow_real_dual_ok_with (a : dy) (T2 : option dy) (v : list dy) : bool :=
+  match v with
+  | [u; v; w] =>
+      if dltb d0 a && dltb a d1 && dleb d0 u && dleb d0 v then
+        if deqb w d0 then true else
+        match T2 with
+        | Some t2 =>
+            match ln_lo u with
+            | Some L1 =>
+                match ln_lo v with
+                | Some L2 =>
+                    match exp_up1 (t2 -d (a *d L1 +d (d1 -d a) *d L2)) with
+                    | Some U => dleb (dabs w *d U) d1
+                    | None => false end
+                | None => false end
+            | None => false end
+        | None => false end
+      else false
+  | _ => false end.
+(** the exponent-only part is evaluated once per partial application [pow_real_dual_ok a] *)
+Definition pow_real_dual_ok (a : dy) : list dy -> bool :=
+  let T2 := if dltb d0 a && dltb a d1 then pow_T2 a else None in
+  fun v => pow_real_dual_ok_with a T2 v.
 Definition dprodpow := prodpow OpsD.
 Definition genpow_ok (ps : list nat) (q : nat) (v : list dy) : bool :=
   let xs := firstn (length ps) v in let w := skipn (length ps) v in
@@ -159,7 +257,14 @@ Definition chk_cone (dual : bool) (k : coneD) (v : list dy) : verdict :=
       | Some (p, q) =>
           let f := if dual then pow_dual_ok p q else pow_ok p q in
           tri (f v) (match v with [a; b; c] => f [a +d dl; b +d dl; c *d rel40m] | _ => false end)
-      | None => Unchecked end
+      | None =>
+          (* real-exponent branch: a failed logarithm bound gives [false], never a wrong Holds;
+             the shifted test is evaluated only when the exact one fails (each costs a few
+             evaluations of [yexp_up]) *)
+          let f := if dual then pow_real_dual_ok a else pow_real_ok a in
+          if f v then Holds
+          else tri false (match v with [a; b; c] => f [a +d dl; b +d dl; c *d rel40m] | _ => false end)
+      end
   | KGenPow al _ =>
       match alphas_pq al with
       | Some (ps, q) =>
